@@ -233,6 +233,9 @@ func (r *StreamRun) bindS(run *Run, e *Ev) {
 		r.smu.Lock()
 		e.S = r.seqID[e.Seq]
 		r.smu.Unlock()
+		if e.Ev == "c.dispatch" && isNilCall(e.sub) {
+			e.K = "none" // no entry under this sequence number: the frame is dropped
+		}
 	}
 }
 
